@@ -407,7 +407,6 @@ def shrink(desc, scratch=None, budget=60):
         def drop_first(c):
             c['invocations'] = c['invocations'][1:]
             c['expect'] = dict(c['expect'], invocation=len(c['invocations']) - 1)
-            _renumber_par(c)
         if not attempt(drop_first):
             break
     for i in range(len(best['invocations']) - 2, -1, -1):
@@ -446,12 +445,6 @@ def shrink(desc, scratch=None, budget=60):
                 c['invocations'][i][key] = val
             attempt(setk)
 
-        def valid_par(c, i=i):
-            p = c['invocations'][i].get('par')
-            if p is None or p['variant'] == 'valid':
-                return False
-            return False
-        attempt(valid_par)
         if i < len(best['invocations']) - 1:
             attempt(lambda c, i=i: c['invocations'][i].__setitem__('fault', None))
     # 4. simplify the fault: plain RuntimeError, first occurrence
@@ -470,9 +463,6 @@ def shrink(desc, scratch=None, budget=60):
     best['shrink_replays'] = used[0]
     return best
 
-
-def _renumber_par(c):
-    return None
 
 
 # ---------------------------------------------------------------------------
